@@ -32,13 +32,15 @@ def strategy():
         nc = draw(st.integers(2, 4))
         contigs = CONTIGS[:nc]
         ns = draw(st.sampled_from([1, 2, 2, 3, 4]))
-        samples = ['S%d' % (i + 1) for i in range(ns)]
+        # sample names may contain a blank (legal in VCF, columns are tab separated)
+        sfmt = draw(st.sampled_from(['S%d', 'S%d', 'S%d', 'Patient %d']))
+        samples = [sfmt % (i + 1) for i in range(ns)]
         recs = []
         for ci, c in enumerate(contigs):
             poss = draw(st.lists(st.integers(1, 40), min_size=0 if ci > 1 else 1, max_size=8, unique=True))
             for p in sorted(poss):
                 ref = draw(st.sampled_from(BASES))
-                nalt = draw(st.sampled_from([1, 1, 1, 2]))
+                nalt = draw(st.sampled_from([1, 1, 1, 1, 2, 2, 0]))      # 0: a record without ALT allele ('.')
                 alts = []
                 for _ in range(nalt):
                     a = draw(st.sampled_from([b for b in BASES if b != ref] + ['AT', ref + 'G'] * 0 + ['GC']))
@@ -49,6 +51,8 @@ def strategy():
                 gts = []
                 phased = draw(st.booleans())
                 style = draw(st.sampled_from(['mixed', 'mixed', 'all_ref', 'split', 'split', 'split', 'missing']))
+                if not alts:
+                    style = draw(st.sampled_from(['all_ref', 'missing', 'missing']))
                 for s in samples:
                     def allele():
                         if style == 'all_ref':
@@ -102,7 +106,7 @@ def vcf_text(case):
     lines.append('##FORMAT=<ID=GT,Number=1,Type=String,Description="Genotype">')
     lines.append('#CHROM\tPOS\tID\tREF\tALT\tQUAL\tFILTER\tINFO\tFORMAT\t' + '\t'.join(case['samples']))
     for r in case['records']:
-        lines.append('%s\t%d\t.\t%s\t%s\t50\tPASS\t.\tGT\t%s' % (r['chrom'], r['pos'], r['ref'], ','.join(r['alts']), '\t'.join(r['gts'])))
+        lines.append('%s\t%d\t.\t%s\t%s\t50\tPASS\t.\tGT\t%s' % (r['chrom'], r['pos'], r['ref'], ','.join(r['alts']) or '.', '\t'.join(r['gts'])))
     return '\n'.join(lines) + '\n'
 
 
